@@ -88,60 +88,1033 @@ structure WF (s : State) : Prop where
 theorem wf_init : WF init := by
   constructor <;> simp [init, State.curId]
 
-@[simp] theorem upd_same (f : Nat → Tm) (i : Nat) (v : Tm) : upd f i v i = v := by simp [upd]
-theorem upd_other (f : Nat → Tm) (i j : Nat) (v : Tm) (h : j ≠ i) : upd f i v j = f j := by simp [upd, h]
+/-! projections of the atomic mutations -/
+section proj
+variable (s : State) (x i d k : Nat) (t : Tm) (c : Option (Nat × List Act)) (acts : List Act)
 
-theorem wf_create (s : State) (h : WF s) (d : Int) (r : Bool) (k : Nat) (a : List Nat) :
-    WF (create s d r k a).1 := by
-  have hf := h.dead _ (h.fresh (s.nextId + 1) (by omega))
+@[simp] theorem upd_same (f : Nat → Tm) : upd f x t x = t := by simp [upd]
+theorem upd_other (f : Nat → Tm) (j : Nat) (h : j ≠ x) : upd f x t j = f j := by simp [upd, h]
+
+@[simp] theorem setTm_tm_same : (s.setTm x t).tm x = t := by simp [State.setTm]
+theorem setTm_tm_other (j : Nat) (h : j ≠ x) : (s.setTm x t).tm j = s.tm j := by simp [State.setTm, upd, h]
+@[simp] theorem setTm_now : (s.setTm x t).now = s.now := rfl
+@[simp] theorem setTm_nextId : (s.setTm x t).nextId = s.nextId := rfl
+@[simp] theorem setTm_running : (s.setTm x t).running = s.running := rfl
+@[simp] theorem setTm_queue : (s.setTm x t).queue = s.queue := rfl
+@[simp] theorem setTm_cur : (s.setTm x t).cur = s.cur := rfl
+@[simp] theorem setTm_curId : (s.setTm x t).curId = s.curId := rfl
+@[simp] theorem setTm_scripts : (s.setTm x t).scripts = s.scripts := rfl
+
+@[simp] theorem push_tm : (s.push x).tm = s.tm := rfl
+@[simp] theorem push_now : (s.push x).now = s.now := rfl
+@[simp] theorem push_nextId : (s.push x).nextId = s.nextId := rfl
+@[simp] theorem push_running : (s.push x).running = s.running := rfl
+@[simp] theorem push_queue : (s.push x).queue = s.queue ++ [x] := rfl
+@[simp] theorem push_cur : (s.push x).cur = s.cur := rfl
+@[simp] theorem push_curId : (s.push x).curId = s.curId := rfl
+@[simp] theorem push_scripts : (s.push x).scripts = s.scripts := rfl
+
+@[simp] theorem pop_tm : (s.pop i).tm = s.tm := rfl
+@[simp] theorem pop_now : (s.pop i).now = s.now := rfl
+@[simp] theorem pop_nextId : (s.pop i).nextId = s.nextId := rfl
+@[simp] theorem pop_running : (s.pop i).running = s.running := rfl
+@[simp] theorem pop_queue : (s.pop i).queue = s.queue.eraseIdx i := rfl
+@[simp] theorem pop_cur : (s.pop i).cur = s.cur := rfl
+@[simp] theorem pop_curId : (s.pop i).curId = s.curId := rfl
+@[simp] theorem pop_scripts : (s.pop i).scripts = s.scripts := rfl
+
+@[simp] theorem setCur_tm : (s.setCur c).tm = s.tm := rfl
+@[simp] theorem setCur_now : (s.setCur c).now = s.now := rfl
+@[simp] theorem setCur_nextId : (s.setCur c).nextId = s.nextId := rfl
+@[simp] theorem setCur_running : (s.setCur c).running = s.running := rfl
+@[simp] theorem setCur_queue : (s.setCur c).queue = s.queue := rfl
+@[simp] theorem setCur_cur : (s.setCur c).cur = c := rfl
+@[simp] theorem setCur_curId : (s.setCur c).curId = c.map (·.1) := rfl
+@[simp] theorem setCur_scripts : (s.setCur c).scripts = s.scripts := rfl
+
+@[simp] theorem alloc_tm : s.alloc.tm = s.tm := rfl
+@[simp] theorem alloc_now : s.alloc.now = s.now := rfl
+@[simp] theorem alloc_nextId : s.alloc.nextId = s.nextId + 1 := rfl
+@[simp] theorem alloc_running : s.alloc.running = s.running := rfl
+@[simp] theorem alloc_queue : s.alloc.queue = s.queue := rfl
+@[simp] theorem alloc_cur : s.alloc.cur = s.cur := rfl
+@[simp] theorem alloc_curId : s.alloc.curId = s.curId := rfl
+@[simp] theorem alloc_scripts : s.alloc.scripts = s.scripts := rfl
+
+@[simp] theorem tick_tm : (s.tick d).tm = s.tm := rfl
+@[simp] theorem tick_now : (s.tick d).now = s.now + d := rfl
+@[simp] theorem tick_nextId : (s.tick d).nextId = s.nextId := rfl
+@[simp] theorem tick_running : (s.tick d).running = s.running := rfl
+@[simp] theorem tick_queue : (s.tick d).queue = s.queue := rfl
+@[simp] theorem tick_cur : (s.tick d).cur = s.cur := rfl
+@[simp] theorem tick_curId : (s.tick d).curId = s.curId := rfl
+
+@[simp] theorem halt_tm : s.halt.tm = s.tm := rfl
+@[simp] theorem halt_now : s.halt.now = s.now := rfl
+@[simp] theorem halt_nextId : s.halt.nextId = s.nextId := rfl
+@[simp] theorem halt_running : s.halt.running = false := rfl
+@[simp] theorem halt_queue : s.halt.queue = s.queue := rfl
+@[simp] theorem halt_cur : s.halt.cur = s.cur := rfl
+@[simp] theorem halt_curId : s.halt.curId = s.curId := rfl
+
+@[simp] theorem setScript_tm : (s.setScript k acts).tm = s.tm := rfl
+@[simp] theorem setScript_now : (s.setScript k acts).now = s.now := rfl
+@[simp] theorem setScript_nextId : (s.setScript k acts).nextId = s.nextId := rfl
+@[simp] theorem setScript_running : (s.setScript k acts).running = s.running := rfl
+@[simp] theorem setScript_queue : (s.setScript k acts).queue = s.queue := rfl
+@[simp] theorem setScript_cur : (s.setScript k acts).cur = s.cur := rfl
+@[simp] theorem setScript_curId : (s.setScript k acts).curId = s.curId := rfl
+end proj
+
+theorem live_of_armed {s : State} (h : WF s) {x : Nat} (ha : (s.tm x).armed = true) : (s.tm x).live = true := by
+  cases hl : (s.tm x).live with
+  | true => rfl
+  | false => have := (h.dead x hl).1; simp_all
+
+theorem live_of_inMap {s : State} (h : WF s) {x : Nat} (ha : (s.tm x).inMap = true) : (s.tm x).live = true := by
+  cases hl : (s.tm x).live with
+  | true => rfl
+  | false => have := (h.dead x hl).2.1; simp_all
+
+theorem live_of_queued {s : State} (h : WF s) {x : Nat} (hq : x ∈ s.queue) : (s.tm x).live = true := by
+  cases hl : (s.tm x).live with
+  | true => rfl
+  | false => exact absurd hq (h.dead x hl).2.2.2.1
+
+theorem live_of_cur {s : State} (h : WF s) {x : Nat} (hc : s.curId = some x) : (s.tm x).live = true := by
+  cases hl : (s.tm x).live with
+  | true => rfl
+  | false => exact absurd hc (h.dead x hl).2.2.2.2
+
+theorem le_nextId_of_live {s : State} (h : WF s) {x : Nat} (hl : (s.tm x).live = true) : x ≤ s.nextId := by
+  apply Nat.le_of_not_lt
+  intro hlt
+  have := h.fresh x hlt
+  simp_all
+
+/-- replacing one object by a live one that respects the local conditions -/
+theorem wf_setTm {s : State} (h : WF s) (x : Nat) (t : Tm)
+    (c1 : t.live = true) (c1' : x ≤ s.nextId)
+    (c2 : t.armed = true → t.cancelled = false ∧ t.inMap = true ∧ x ∉ s.queue ∧ s.curId ≠ some x)
+    (c3 : x ∈ s.queue → t.exp ≤ s.now)
+    (c4 : t.inMap = false → t.cancelled = true ∨ (t.period = 0 ∧ x ∉ s.queue ∧ s.curId ≠ some x)) :
+    WF (s.setTm x t) := by
   constructor
   · intro id hid
-    have : id ≠ s.nextId + 1 := by simp [create] at hid; omega
-    simp [create, upd, this]; exact h.fresh id (by simp [create] at hid; omega)
+    have e : id ≠ x := by simp at hid; omega
+    rw [setTm_tm_other _ _ _ _ e]; exact h.fresh id (by simpa using hid)
   · intro id
-    by_cases e : id = s.nextId + 1
-    · subst e; simp [create]
-    · simpa [create, upd, e, State.curId] using h.dead id
+    by_cases e : id = x
+    · subst e; simp [c1]
+    · rw [setTm_tm_other _ _ _ _ e]; simpa using h.dead id
   · intro id
-    by_cases e : id = s.nextId + 1
-    · subst e; have := hf.2.2.2; simpa [create, State.curId] using this
-    · simpa [create, upd, e, State.curId] using h.armedOk id
-  · simpa [create] using h.nodup
+    by_cases e : id = x
+    · subst e; simpa using c2
+    · rw [setTm_tm_other _ _ _ _ e]; simpa using h.armedOk id
+  · exact h.nodup
   · intro id hq
-    have hq' : id ∈ s.queue := by simpa [create] using hq
-    have e : id ≠ s.nextId + 1 := by intro e; subst e; exact hf.2.2.2.1 hq'
-    simpa [create, upd, e, State.curId] using h.queueOk id hq'
+    by_cases e : id = x
+    · subst e; simp only [setTm_tm_same, setTm_curId, setTm_now]; exact ⟨(h.queueOk id hq).1, c3 hq⟩
+    · rw [setTm_tm_other _ _ _ _ e]; exact h.queueOk id hq
   · intro id
-    by_cases e : id = s.nextId + 1
-    · subst e; simp [create]
-    · simpa [create, upd, e, State.curId] using h.gone id
+    by_cases e : id = x
+    · subst e; simpa using fun _ => c4
+    · rw [setTm_tm_other _ _ _ _ e]; simpa using h.gone id
 
-theorem wf_cancelTm (s : State) (h : WF s) (x : Nat) : WF (cancelTm s x).1 := by
-  unfold cancelTm
-  by_cases hm : (s.tm x).inMap = true
-  · simp only [hm, if_true]
+theorem wf_alloc {s : State} (h : WF s) : WF s.alloc := by
+  constructor
+  · intro id hid; exact h.fresh id (by simp at hid; omega)
+  · exact h.dead
+  · exact h.armedOk
+  · exact h.nodup
+  · exact h.queueOk
+  · exact h.gone
+
+theorem wf_push {s : State} (h : WF s) (x : Nat) (hl : (s.tm x).live = true) (ha : (s.tm x).armed = false)
+    (hm : (s.tm x).inMap = true) (hnq : x ∉ s.queue) (hcur : s.curId ≠ some x) (hexp : (s.tm x).exp ≤ s.now) :
+    WF (s.push x) := by
+  constructor
+  · exact h.fresh
+  · intro id hd
+    have := h.dead id hd
+    by_cases e : id = x
+    · subst e; simp [hl] at hd
+    · simp_all
+  · intro id ha'
+    have := h.armedOk id ha'
+    by_cases e : id = x
+    · subst e; simp [ha] at ha'
+    · simp_all
+  · refine List.nodup_append.2 ⟨h.nodup, by simp, ?_⟩
+    intro a hmem b hb e
+    simp at hb; subst hb; subst e; exact hnq hmem
+  · intro id hq
+    simp only [push_queue, List.mem_append, List.mem_singleton] at hq
+    rcases hq with hq | e
+    · exact h.queueOk id hq
+    · subst e; exact ⟨hcur, hexp⟩
+  · intro id hl' hm'
+    by_cases e : id = x
+    · subst e; simp [hm] at hm'
+    · have := h.gone id hl' hm'; simp_all
+
+theorem mem_of_mem_eraseIdx {l : List Nat} {i a : Nat} (h : a ∈ l.eraseIdx i) : a ∈ l :=
+  (List.eraseIdx_sublist l i).subset h
+
+theorem wf_pop {s : State} (h : WF s) (i : Nat) : WF (s.pop i) := by
+  constructor
+  · exact h.fresh
+  · intro id hd
+    have := h.dead id hd
+    exact ⟨this.1, this.2.1, this.2.2.1, fun hq => this.2.2.2.1 (mem_of_mem_eraseIdx hq), this.2.2.2.2⟩
+  · intro id ha
+    have := h.armedOk id ha
+    exact ⟨this.1, this.2.1, fun hq => this.2.2.1 (mem_of_mem_eraseIdx hq), this.2.2.2⟩
+  · exact h.nodup.sublist (List.eraseIdx_sublist _ _)
+  · intro id hq; exact h.queueOk id (mem_of_mem_eraseIdx hq)
+  · intro id hl hm
+    rcases h.gone id hl hm with hc | ⟨hp, hq, hc⟩
+    · exact Or.inl hc
+    · exact Or.inr ⟨hp, fun hq' => hq (mem_of_mem_eraseIdx hq'), hc⟩
+
+/-- entering / continuing / leaving a callback -/
+theorem wf_setCur {s : State} (h : WF s) (c : Option (Nat × List Act))
+    (hc : ∀ id, c.map (·.1) = some id →
+      (s.tm id).live = true ∧ (s.tm id).armed = false ∧ id ∉ s.queue ∧ ((s.tm id).inMap = false → (s.tm id).cancelled = true)) :
+    WF (s.setCur c) := by
+  constructor
+  · exact h.fresh
+  · intro id hd
+    have := h.dead id hd
+    refine ⟨this.1, this.2.1, this.2.2.1, this.2.2.2.1, ?_⟩
+    intro e; have := (hc id e).1; simp_all
+  · intro id ha
+    have := h.armedOk id ha
+    refine ⟨this.1, this.2.1, this.2.2.1, ?_⟩
+    intro e; have := (hc id e).2.1; simp_all
+  · exact h.nodup
+  · intro id hq
+    refine ⟨?_, (h.queueOk id hq).2⟩
+    intro e; exact (hc id e).2.2.1 hq
+  · intro id hl hm
+    rcases h.gone id hl hm with hcc | ⟨hp, hq, _⟩
+    · exact Or.inl hcc
+    · by_cases e : (s.setCur c).curId = some id
+      · exact Or.inl ((hc id e).2.2.2 hm)
+      · exact Or.inr ⟨hp, hq, e⟩
+
+theorem cur_facts {s : State} (h : WF s) {id : Nat} (hc : s.curId = some id) :
+    (s.tm id).live = true ∧ (s.tm id).armed = false ∧ id ∉ s.queue ∧ ((s.tm id).inMap = false → (s.tm id).cancelled = true) := by
+  refine ⟨live_of_cur h hc, ?_, ?_, ?_⟩
+  · cases ha : (s.tm id).armed with
+    | false => rfl
+    | true => exact absurd hc (h.armedOk id ha).2.2.2
+  · intro hq; exact (h.queueOk id hq).1 hc
+  · intro hm
+    rcases h.gone id (live_of_cur h hc) hm with hcc | ⟨_, _, hne⟩
+    · exact hcc
+    · exact absurd hc hne
+
+theorem wf_tick {s : State} (h : WF s) (d : Nat) : WF (s.tick d) := by
+  constructor
+  · exact h.fresh
+  · exact h.dead
+  · exact h.armedOk
+  · exact h.nodup
+  · intro id hq; have := h.queueOk id hq; exact ⟨this.1, by simp; omega⟩
+  · exact h.gone
+
+theorem wf_halt {s : State} (h : WF s) : WF s.halt := ⟨h.fresh, h.dead, h.armedOk, h.nodup, h.queueOk, h.gone⟩
+
+theorem wf_setScript {s : State} (h : WF s) (k : Nat) (acts : List Act) : WF (s.setScript k acts) :=
+  ⟨h.fresh, h.dead, h.armedOk, h.nodup, h.queueOk, h.gone⟩
+
+/-! ### `WF` is preserved by every primitive -/
+
+theorem wf_create {s : State} (h : WF s) (d : Int) (r : Bool) (k : Nat) (a : List Nat) :
+    WF (create s d r k a).1 := by
+  have hf := h.dead _ (h.fresh (s.nextId + 1) (by omega))
+  exact wf_setTm (wf_alloc h) _ _ rfl (by simp) (by intro _; simpa using hf.2.2.2) (by intro hq; exact absurd hq hf.2.2.2.1)
+    (by simp)
+
+theorem wf_cancelTm {s : State} (h : WF s) (x : Nat) : WF (cancelTm s x).1 := by
+  simp only [cancelTm]
+  split
+  next hm =>
+    exact wf_setTm h x _ (by simpa using live_of_inMap h hm) (le_nextId_of_live h (live_of_inMap h hm))
+      (by simp) (by intro hq; exact (h.queueOk x hq).2) (by simp)
+  next => exact h
+
+theorem wf_expire {s : State} (h : WF s) (x : Nat) : WF (expire s x).1 := by
+  unfold expire
+  split
+  next hg =>
+    simp only [Bool.and_eq_true, decide_eq_true_eq] at hg
+    obtain ⟨ha, hexp⟩ := hg
+    obtain ⟨hc, hmap, hnq, hcur⟩ := h.armedOk x ha
+    have hl := live_of_armed h ha
+    have base : WF (s.setTm x { s.tm x with armed := false }) :=
+      wf_setTm h x _ (by simpa using hl) (le_nextId_of_live h hl) (by simp) (by intro hq; exact absurd hq hnq)
+        (by simp [hmap])
+    split
+    · exact base
+    · split
+      · exact base
+      · exact wf_push base x (by simpa using hl) (by simp) (by simpa using hmap) (by simpa using hnq)
+          (by simpa using hcur) (by simpa using hexp)
+  next => exact h
+
+theorem getElem?_mem' {l : List Nat} {i a : Nat} (h : l[i]? = some a) : a ∈ l := List.mem_of_getElem? h
+
+theorem not_mem_eraseIdx_of_nodup {l : List Nat} (hn : l.Nodup) {i a : Nat} (h : l[i]? = some a) :
+    a ∉ l.eraseIdx i := by
+  induction l generalizing i with
+  | nil => simp
+  | cons b rest ih =>
+    cases i with
+    | zero =>
+      simp at h; subst h
+      simpa using (List.nodup_cons.1 hn).1
+    | succ j =>
+      simp at h
+      have hb : a ≠ b := by
+        intro e; subst e
+        exact (List.nodup_cons.1 hn).1 (List.mem_of_getElem? h)
+      simp [List.eraseIdx_cons_succ, hb, ih (List.nodup_cons.1 hn).2 h]
+
+theorem wf_doNext {s : State} (h : WF s) (i : Nat) : WF (doNext s i).1 := by
+  unfold doNext
+  split
+  · exact h
+  · split
+    · exact h
+    next id hid =>
+      have hq : id ∈ s.queue := List.mem_of_getElem? hid
+      split
+      · exact wf_pop h i
+      next hnc =>
+        refine wf_setCur (wf_pop h i) _ ?_
+        intro j hj
+        simp at hj; subst hj
+        refine ⟨by simpa using live_of_queued h hq, ?_, by simpa using not_mem_eraseIdx_of_nodup h.nodup hid, ?_⟩
+        · cases ha : (s.tm id).armed with
+          | false => simpa using ha
+          | true => exact absurd hq (h.armedOk id ha).2.2.1
+        · intro hm
+          rcases h.gone id (live_of_queued h hq) (by simpa using hm) with hc | ⟨_, hnq, _⟩
+          · simpa using hc
+          · exact absurd hq hnq
+
+/-- the tail of `Do`: from a state whose running callback is `id` -/
+theorem wf_finish {s : State} (h : WF s) {id : Nat} (hc : s.curId = some id) :
+    WF (finish (s.setCur none) id).1 := by
+  obtain ⟨hl, ha, hnq, hm⟩ := cur_facts h hc
+  have h0 : WF (s.setCur none) := wf_setCur h none (by simp)
+  unfold finish
+  split
+  · exact h0
+  next hnc =>
+    have hnc' : (s.tm id).cancelled = false := by simpa using hnc
+    split
+    next hp =>
+      refine wf_setTm h0 id _ (by simpa using hl) (le_nextId_of_live h hl) ?_ (by intro hq; exact absurd hq hnq) ?_
+      · intro _
+        refine ⟨by simpa using hnc', ?_, by simpa using hnq, by simp⟩
+        cases hmm : (s.tm id).inMap with
+        | true => simp [hmm]
+        | false => have := hm hmm; simp_all
+      · intro hmm
+        have : (s.tm id).inMap = false := by simpa using hmm
+        have := hm this; simp_all
+    next hp =>
+      exact wf_setTm h0 id _ (by simpa using hl) (le_nextId_of_live h hl) (by simp [ha])
+        (by intro hq; exact absurd hq hnq) (by intro _; right; simp at hp; exact ⟨by simpa using hp, by simpa using hnq, by simp⟩)
+
+theorem curId_of_cur {s : State} {id : Nat} {acts : List Act} (h : s.cur = some (id, acts)) : s.curId = some id := by
+  simp [State.curId, h]
+
+theorem wf_cbStep {s : State} (h : WF s) : WF (cbStep s).1 := by
+  unfold cbStep
+  split
+  · exact h
+  next id hcur => exact wf_finish h (curId_of_cur hcur)
+  next id a rest hcur =>
+    have hc := curId_of_cur hcur
+    have h1 : ∀ acts, WF (s.setCur (some (id, acts))) := by
+      intro acts
+      refine wf_setCur h _ ?_
+      intro j hj; simp at hj; subst hj; exact cur_facts h hc
+    cases a with
+    | cancelSelf => exact wf_cancelTm (h1 rest) id
+    | cancel x => exact wf_cancelTm (h1 rest) x
+    | cancelNewest => exact wf_cancelTm (h1 rest) _
+    | after d k arg => exact wf_create (h1 rest) d false k [arg]
+    | add d k arg => exact wf_create (h1 rest) d true k [arg]
+    | panic => exact h1 []
+
+theorem wf_step {s : State} (h : WF s) (op : Op) : WF (step s op).1 := by
+  cases op with
+  | after d k a => simp only [step]; split; exact h; exact wf_create h d false k a
+  | add d k a => simp only [step]; split; exact h; exact wf_create h d true k a
+  | cancel id => simp only [step]; split; exact h; exact wf_cancelTm h id
+  | expire id => exact wf_expire h id
+  | doNext i => exact wf_doNext h i
+  | cbStep => exact wf_cbStep h
+  | advance d => exact wf_tick h d
+  | stop => exact wf_halt h
+  | defScript k acts => exact wf_setScript h k acts
+
+/-! ### history invariant (state ↔ trace), per timer id -/
+
+def Event.subject : Event → Nat
+  | .created id _ _ _ _ => id
+  | .cancel id _ => id
+  | .cb id _ _ => id
+  | .rearm id _ _ => id
+  | .panic id => id
+
+theorem snoc_other (tr : List Event) (e : Event) (j : Nat) (h : j ≠ e.subject) :
+    cancelledIn (tr ++ [e]) j = cancelledIn tr j ∧ createdOf (tr ++ [e]) j = createdOf tr j ∧
+    cbCount (tr ++ [e]) j = cbCount tr j ∧ lastCb (tr ++ [e]) j = lastCb tr j := by
+  rw [cancelledIn_snoc, createdOf_snoc, cbCount_snoc, lastCb_snoc]
+  have h' : e.subject ≠ j := fun e => h e.symm
+  cases e <;> simp_all [Event.subject, Event.isCancelOf, Event.isCbOf] <;> (cases createdOf tr j <;> simp)
+
+theorem lastCb_none_iff (tr : List Event) (id : Nat) : lastCb tr id = none ↔ cbCount tr id = 0 := by
+  induction tr with
+  | nil => simp [lastCb]
+  | cons e rest ih =>
+    cases h : lastCb rest id with
+    | some t =>
+      have hne : cbCount rest id ≠ 0 := fun h0 => by simp [ih.2 h0] at h
+      have hc : cbCount (e :: rest) id = cbCount rest id + (if e.isCbOf id then 1 else 0) := by
+        simp [cbCount, List.countP_cons]
+      rw [hc]
+      simp only [lastCb, h]
+      constructor
+      · intro hh; cases hh
+      · intro hh; omega
+    | none =>
+      have h0 := ih.1 h
+      cases e <;> simp_all [lastCb, cbCount, List.countP_cons, Event.isCbOf]
+
+structure HistAt (s : State) (tr : List Event) (id : Nat) : Prop where
+  cancelSound : cancelledIn tr id = true → (s.tm id).live = true ∧ (s.tm id).inMap = false
+  cancelComplete : (s.tm id).cancelled = true → cancelledIn tr id = true
+  createdLive : (s.tm id).live = true → ∃ t0 dl, createdOf tr id = some (t0, dl, (s.tm id).period, (s.tm id).args)
+  createdDead : (s.tm id).live = false → createdOf tr id = none ∧ cbCount tr id = 0
+  once : (s.tm id).period = 0 → cbCount tr id ≤ 1 ∧ (1 ≤ cbCount tr id → (s.tm id).armed = false ∧ id ∉ s.queue)
+  alive : (s.tm id).live = true → (s.tm id).cancelled = false → s.running = true →
+      (s.tm id).armed = true ∨ id ∈ s.queue ∨ s.curId = some id ∨ ((s.tm id).period = 0 ∧ 1 ≤ cbCount tr id)
+  curCount : s.curId = some id → 1 ≤ cbCount tr id
+  timing : ((s.tm id).armed = true ∨ id ∈ s.queue) → ∀ t0 dl p a, createdOf tr id = some (t0, dl, p, a) →
+      (lastCb tr id = none → t0 + dl ≤ (s.tm id).exp) ∧ (∀ t1, lastCb tr id = some t1 → t1 + p ≤ (s.tm id).exp)
+  times : ∀ t1, lastCb tr id = some t1 → t1 ≤ s.now
+
+def Hist (s : State) (tr : List Event) : Prop := ∀ id, HistAt s tr id
+
+theorem hist_init : Hist init [] := by
+  intro id
+  constructor <;> simp [init, State.curId, cancelledIn, createdOf, lastCb]
+
+/-- nothing about `id` changed -/
+theorem histAt_frame {s s' : State} {tr tr' : List Event} {id : Nat}
+    (htm : s'.tm id = s.tm id) (hq : id ∈ s'.queue ↔ id ∈ s.queue) (hc : s'.curId = some id ↔ s.curId = some id)
+    (hnow : s.now ≤ s'.now) (hrun : s'.running = true → s.running = true)
+    (hh : cancelledIn tr' id = cancelledIn tr id ∧ createdOf tr' id = createdOf tr id ∧
+          cbCount tr' id = cbCount tr id ∧ lastCb tr' id = lastCb tr id)
+    (h : HistAt s tr id) : HistAt s' tr' id := by
+  obtain ⟨h1, h2, h3, h4⟩ := hh
+  constructor
+  · rw [h1, htm]; exact h.cancelSound
+  · rw [h1, htm]; exact h.cancelComplete
+  · rw [h2, htm]; exact h.createdLive
+  · rw [h2, h3, htm]; exact h.createdDead
+  · rw [h3, htm, hq]; exact h.once
+  · rw [h3, htm, hq, hc]; intro a b c; exact h.alive a b (hrun c)
+  · rw [h3, hc]; exact h.curCount
+  · rw [h2, h4, htm, hq]; exact h.timing
+  · rw [h4]; intro t1 ht; have := h.times t1 ht; omega
+
+theorem snoc_inert (tr : List Event) (e : Event) (j : Nat)
+    (h : (∃ i t d, e = .rearm i t d) ∨ (∃ i, e = .panic i)) :
+    cancelledIn (tr ++ [e]) j = cancelledIn tr j ∧ createdOf (tr ++ [e]) j = createdOf tr j ∧
+    cbCount (tr ++ [e]) j = cbCount tr j ∧ lastCb (tr ++ [e]) j = lastCb tr j := by
+  rw [cancelledIn_snoc, createdOf_snoc, cbCount_snoc, lastCb_snoc]
+  rcases h with ⟨i, t, d, rfl⟩ | ⟨i, rfl⟩ <;> simp [Event.isCancelOf, Event.isCbOf] <;> (cases createdOf tr j <;> simp)
+
+theorem hist_same (tr : List Event) (j : Nat) :
+    cancelledIn tr j = cancelledIn tr j ∧ createdOf tr j = createdOf tr j ∧
+    cbCount tr j = cbCount tr j ∧ lastCb tr j = lastCb tr j := ⟨rfl, rfl, rfl, rfl⟩
+
+theorem mem_eraseIdx_of_ne {l : List Nat} {i a j : Nat} (h : l[i]? = some a) (hne : j ≠ a) :
+    j ∈ l.eraseIdx i ↔ j ∈ l := by
+  constructor
+  · exact mem_of_mem_eraseIdx
+  · intro hj
+    induction l generalizing i with
+    | nil => simp at hj
+    | cons b rest ih =>
+      cases i with
+      | zero => simp at h; subst h; simpa [hne] using hj
+      | succ k =>
+        simp at h
+        simp only [List.eraseIdx_cons_succ, List.mem_cons] at *
+        rcases hj with hj | hj
+        · exact Or.inl hj
+        · exact Or.inr (ih h hj)
+
+/-! #### create -/
+theorem hist_create {s : State} {tr : List Event} (hw : WF s) (h : Hist s tr) (d : Int) (r : Bool) (k : Nat) (a : List Nat) :
+    Hist (create s d r k a).1 (tr ++ (create s d r k a).2) := by
+  have hnl : (s.tm (s.nextId + 1)).live = false := hw.fresh _ (by omega)
+  have hd := hw.dead _ hnl
+  have hx := h (s.nextId + 1)
+  have hcd := hx.createdDead hnl
+  have hnc : cancelledIn tr (s.nextId + 1) = false := by
+    cases hc : cancelledIn tr (s.nextId + 1) with
+    | false => rfl
+    | true => have := (hx.cancelSound hc).1; simp_all
+  have hlc : lastCb tr (s.nextId + 1) = none := (lastCb_none_iff _ _).2 hcd.2
+  intro j
+  by_cases e : j = s.nextId + 1
+  · subst e
+    simp only [create]
     constructor
-    · intro id hid
-      by_cases e : id = x
-      · subst e; have := h.fresh id hid; have := h.dead id this; simp_all
-      · simpa [upd, e] using h.fresh id hid
-    · intro id
-      by_cases e : id = x
-      · subst e; intro hl; have := h.dead id (by simpa using hl); simp_all
-      · simpa [upd, e, State.curId] using h.dead id
-    · intro id
-      by_cases e : id = x
-      · subst e; simp
-      · simpa [upd, e, State.curId] using h.armedOk id
-    · exact h.nodup
-    · intro id hq
-      by_cases e : id = x
-      · subst e; simpa [State.curId] using h.queueOk id hq
-      · simpa [upd, e, State.curId] using h.queueOk id hq
-    · intro id
-      by_cases e : id = x
-      · subst e; simp
-      · simpa [upd, e, State.curId] using h.gone id
-  · simpa [hm] using h
+    · rw [cancelledIn_snoc]; simp [hnc, Event.isCancelOf]
+    · simp
+    · intro _; rw [createdOf_snoc, hcd.1]; simp
+    · simp
+    · intro _; rw [cbCount_snoc]; simp [hcd.2, Event.isCbOf]
+    · simp
+    · intro hc; simp at hc; exact absurd hc hd.2.2.2.2
+    · intro _ t0 dl p a'
+      rw [createdOf_snoc, hcd.1, lastCb_snoc]
+      simp only [if_true, hlc]
+      intro heq; simp at heq
+      obtain ⟨h1, h2, _, _⟩ := heq
+      subst h1; subst h2
+      simp
+    · intro t1; rw [lastCb_snoc]; simp [hlc]
+  · refine histAt_frame ?_ ?_ ?_ ?_ ?_ ?_ (h j)
+    · simp [create, setTm_tm_other _ _ _ _ e]
+    · simp [create]
+    · simp [create]
+    · simp [create]
+    · simp [create]
+    · exact snoc_other tr _ j (by simpa [create, Event.subject] using e)
+
+/-! #### cancel -/
+theorem hist_cancelTm {s : State} {tr : List Event} (hw : WF s) (h : Hist s tr) (x : Nat) :
+    Hist (cancelTm s x).1 (tr ++ (cancelTm s x).2) := by
+  have hx := h x
+  cases hl : (s.tm x).live with
+  | false =>
+    have hm := (hw.dead x hl).2.1
+    simpa [cancelTm, hl, hm] using h
+  | true =>
+    have hnotcb : ∀ t, (Event.cancel x t).isCbOf x = false := fun _ => rfl
+    have hco : createdOf (tr ++ [Event.cancel x s.now]) x = createdOf tr x := by
+      rw [createdOf_snoc]; cases createdOf tr x <;> simp
+    have hcb : cbCount (tr ++ [Event.cancel x s.now]) x = cbCount tr x := by
+      rw [cbCount_snoc]; simp [Event.isCbOf]
+    have hlc : lastCb (tr ++ [Event.cancel x s.now]) x = lastCb tr x := by
+      rw [lastCb_snoc]
+    have hci : cancelledIn (tr ++ [Event.cancel x s.now]) x = true := by
+      rw [cancelledIn_snoc]; simp [Event.isCancelOf]
+    intro j
+    by_cases e : j = x
+    · subst e
+      simp only [cancelTm, hl, if_true]
+      cases hm : (s.tm j).inMap with
+      | true =>
+        simp only [if_true]
+        constructor
+        · intro _; simp
+        · intro _; exact hci
+        · intro _; rw [hco]; simpa using hx.createdLive hl
+        · intro h0; simp at h0
+        · intro hp; rw [hcb]
+          have := hx.once (by simpa using hp)
+          exact ⟨this.1, fun h1 => ⟨by simp, by simpa using (this.2 h1).2⟩⟩
+        · simp
+        · intro hc; rw [hcb]; exact hx.curCount (by simpa using hc)
+        · intro hq t0 dl p a
+          rw [hco, hlc]
+          simp only [setTm_tm_same, setTm_queue] at hq ⊢
+          exact hx.timing (Or.inr (by simpa using hq)) t0 dl p a
+        · intro t1; rw [hlc]; simpa using hx.times t1
+      | false =>
+        simp only [Bool.false_eq_true, if_false]
+        constructor
+        · intro _; exact ⟨hl, hm⟩
+        · intro _; exact hci
+        · rw [hco]; exact hx.createdLive
+        · simp [hl]
+        · rw [hcb]; exact hx.once
+        · rw [hcb]; exact hx.alive
+        · rw [hcb]; exact hx.curCount
+        · rw [hco, hlc]; exact hx.timing
+        · rw [hlc]; exact hx.times
+    · refine histAt_frame ?_ ?_ ?_ ?_ ?_ ?_ (h j)
+      · simp only [cancelTm]; split
+        · exact setTm_tm_other _ _ _ _ e
+        · rfl
+      · simp only [cancelTm]; split <;> simp
+      · simp only [cancelTm]; split <;> simp
+      · simp only [cancelTm]; split <;> simp
+      · simp only [cancelTm]; split <;> simp
+      · simp only [cancelTm, hl, if_true]
+        exact snoc_other tr _ j (by simpa [Event.subject] using e)
+
+/-! #### expire -/
+theorem hist_expire {s : State} {tr : List Event} (hw : WF s) (h : Hist s tr) (x : Nat) :
+    Hist (expire s x).1 (tr ++ (expire s x).2) := by
+  unfold expire
+  split
+  next hg =>
+    simp only [Bool.and_eq_true, decide_eq_true_eq] at hg
+    obtain ⟨ha, hexp⟩ := hg
+    obtain ⟨hc, hmap, hnq, hcur⟩ := hw.armedOk x ha
+    have hx := h x
+    -- disarmed only: cancelled or manager stopped
+    have base : (s.tm x).cancelled = true ∨ s.running = false →
+        Hist (s.setTm x { s.tm x with armed := false }) tr := by
+      intro hwhy j
+      by_cases e : j = x
+      · subst e
+        constructor
+        · simpa using hx.cancelSound
+        · simpa using hx.cancelComplete
+        · simpa using hx.createdLive
+        · simpa using hx.createdDead
+        · intro hp
+          have := hx.once (by simpa using hp)
+          exact ⟨this.1, fun h1 => ⟨by simp, by simpa using (this.2 h1).2⟩⟩
+        · intro _ hcc hr
+          rcases hwhy with hw1 | hw1
+          · simp [hw1] at hcc
+          · simp [hw1] at hr
+        · simpa using hx.curCount
+        · intro hq t0 dl p a
+          simp only [setTm_tm_same, setTm_queue] at hq ⊢
+          exact hx.timing (Or.inl ha) t0 dl p a
+        · simpa using hx.times
+      · exact histAt_frame (setTm_tm_other _ _ _ _ e) (by simp) (by simp) (by simp) (by simp) (hist_same tr j) (h j)
+    split
+    next hcc => simpa using base (Or.inl hcc)
+    next =>
+      split
+      next hr => simpa using base (Or.inr (by simpa using hr))
+      next hr =>
+        simp only [List.append_nil]
+        intro j
+        by_cases e : j = x
+        · subst e
+          have hcnt : (s.tm j).period = 0 → cbCount tr j = 0 := by
+            intro hp
+            have := hx.once hp
+            cases hc0 : cbCount tr j with
+            | zero => rfl
+            | succ n => have := (this.2 (by omega)).1; simp_all
+          constructor
+          · simpa using hx.cancelSound
+          · simpa using hx.cancelComplete
+          · simpa using hx.createdLive
+          · simpa using hx.createdDead
+          · intro hp
+            have h0 := hcnt (by simpa using hp)
+            rw [h0]; exact ⟨by omega, fun h1 => absurd h1 (by omega)⟩
+          · intro _ _ _; right; left; simp
+          · simpa using hx.curCount
+          · intro _ t0 dl p a
+            simp only [push_tm, setTm_tm_same]
+            exact hx.timing (Or.inl ha) t0 dl p a
+          · simpa using hx.times
+        · exact histAt_frame (by simp [setTm_tm_other _ _ _ _ e]) (by simp [e]) (by simp) (by simp) (by simp)
+            (hist_same tr j) (h j)
+  next => simpa using h
+
+/-! #### doNext -/
+theorem hist_doNext {s : State} {tr : List Event} (hw : WF s) (h : Hist s tr) (i : Nat) :
+    Hist (doNext s i).1 (tr ++ (doNext s i).2) := by
+  unfold doNext
+  split
+  · simpa using h
+  next hcn =>
+    have hcur : s.curId = none := by
+      cases hc : s.cur with
+      | none => simp [State.curId, hc]
+      | some v => simp [hc] at hcn
+    split
+    · simpa using h
+    next id hid =>
+      have hq : id ∈ s.queue := List.mem_of_getElem? hid
+      have hx := h id
+      have hna : (s.tm id).armed = false := by
+        cases ha : (s.tm id).armed with
+        | false => rfl
+        | true => exact absurd hq (hw.armedOk id ha).2.2.1
+      have hnq' : id ∉ s.queue.eraseIdx i := not_mem_eraseIdx_of_nodup hw.nodup hid
+      split
+      next hcc =>
+        simp only [List.append_nil]
+        intro j
+        by_cases e : j = id
+        · subst e
+          constructor
+          · simpa using hx.cancelSound
+          · simpa using hx.cancelComplete
+          · simpa using hx.createdLive
+          · simpa using hx.createdDead
+          · intro hp
+            have := hx.once (by simpa using hp)
+            exact ⟨this.1, fun _ => ⟨by simpa using hna, by simpa using hnq'⟩⟩
+          · intro _ hc2; simp [hcc] at hc2
+          · simpa using hx.curCount
+          · intro hor; simp [hna, hnq'] at hor
+          · simpa using hx.times
+        · exact histAt_frame (by simp) (by simpa using mem_eraseIdx_of_ne hid e) (by simp) (by simp) (by simp)
+            (hist_same tr j) (h j)
+      next hcc =>
+        intro j
+        by_cases e : j = id
+        · subst e
+          have hcb : cbCount (tr ++ [Event.cb j s.now (s.tm j).args]) j = cbCount tr j + 1 := by
+            rw [cbCount_snoc]; simp [Event.isCbOf]
+          have hco : createdOf (tr ++ [Event.cb j s.now (s.tm j).args]) j = createdOf tr j := by
+            rw [createdOf_snoc]; cases createdOf tr j <;> simp
+          have hci : cancelledIn (tr ++ [Event.cb j s.now (s.tm j).args]) j = cancelledIn tr j := by
+            rw [cancelledIn_snoc]; simp [Event.isCancelOf]
+          constructor
+          · rw [hci]; simpa using hx.cancelSound
+          · rw [hci]; simpa using hx.cancelComplete
+          · rw [hco]; simpa using hx.createdLive
+          · intro hl; have := live_of_queued hw hq; simp at hl; simp [hl] at this
+          · intro hp
+            have := hx.once (by simpa using hp)
+            have h0 : cbCount tr j = 0 := by
+              cases hc0 : cbCount tr j with
+              | zero => rfl
+              | succ n => exact absurd hq (this.2 (by omega)).2
+            rw [hcb, h0]
+            exact ⟨by omega, fun _ => ⟨by simpa using hna, by simpa using hnq'⟩⟩
+          · intro _ _ _; right; right; left; simp
+          · intro _; rw [hcb]; omega
+          · intro hor; simp [hna, hnq'] at hor
+          · intro t1; rw [lastCb_snoc]; simp
+            intro ht; omega
+        · refine histAt_frame (by simp) (by simpa using mem_eraseIdx_of_ne hid e) ?_ (by simp) (by simp) ?_ (h j)
+          · simp [hcur]; exact fun e' => e e'.symm
+          · exact snoc_other tr _ j (by simpa [Event.subject] using e)
+
+/-! #### the tail of `Do` -/
+theorem hist_finish {s : State} {tr : List Event} (hw : WF s) (h : Hist s tr) {id : Nat} (hc : s.curId = some id) :
+    Hist (finish (s.setCur none) id).1 (tr ++ (finish (s.setCur none) id).2) := by
+  obtain ⟨hl, ha, hnq, hm⟩ := cur_facts hw hc
+  have hx := h id
+  have hcnt := hx.curCount hc
+  have other : ∀ (s' : State) (tr' : List Event) (j : Nat), j ≠ id → s'.tm j = s.tm j → s'.queue = s.queue →
+      s'.curId = none → s'.now = s.now → s'.running = s.running →
+      (cancelledIn tr' j = cancelledIn tr j ∧ createdOf tr' j = createdOf tr j ∧
+        cbCount tr' j = cbCount tr j ∧ lastCb tr' j = lastCb tr j) → HistAt s' tr' j := by
+    intro s' tr' j e h1 h2 h3 h4 h5 h6
+    refine histAt_frame h1 (by rw [h2]) ?_ (by omega) (by rw [h5]; exact fun hr => hr) h6 (h j)
+    rw [h3, hc]; simp; exact fun e' => e e'.symm
+  unfold finish
+  split
+  next hcc =>
+    simp only [List.append_nil]
+    intro j
+    by_cases e : j = id
+    · subst e
+      constructor
+      · simpa using hx.cancelSound
+      · simpa using hx.cancelComplete
+      · simpa using hx.createdLive
+      · simpa using hx.createdDead
+      · simpa using hx.once
+      · intro _ hc2; simp at hc2 hcc; simp [hcc] at hc2
+      · simp
+      · simpa using hx.timing
+      · simpa using hx.times
+    · exact other _ _ j e rfl rfl rfl rfl rfl (hist_same tr j)
+  next hcc =>
+    have hcc' : (s.tm id).cancelled = false := by simpa using hcc
+    have hmap : (s.tm id).inMap = true := by
+      cases hmm : (s.tm id).inMap with
+      | true => rfl
+      | false => have := hm hmm; simp_all
+    have hnci : cancelledIn tr id = false := by
+      cases hci : cancelledIn tr id with
+      | false => rfl
+      | true => have := (hx.cancelSound hci).2; simp_all
+    split
+    next hp =>
+      simp only [setCur_tm, setCur_now] at hp ⊢
+      intro j
+      by_cases e : j = id
+      · subst e
+        obtain ⟨h1, h2, h3, h4⟩ := snoc_inert tr (Event.rearm j s.now (s.tm j).period) j (Or.inl ⟨_, _, _, rfl⟩)
+        constructor
+        · rw [h1, hnci]; simp
+        · rw [h1]; simp [hcc']
+        · rw [h2]; simpa using hx.createdLive
+        · simp [hl]
+        · intro hp0; simp at hp0; omega
+        · intro _ _ _; left; simp
+        · simp
+        · intro _ t0 dl p a hco
+          rw [h2] at hco
+          obtain ⟨t0', dl', hco'⟩ := hx.createdLive hl
+          rw [hco'] at hco
+          simp at hco
+          obtain ⟨_, _, hpp, _⟩ := hco
+          rw [h4]
+          constructor
+          · intro hn; have := (lastCb_none_iff tr j).1 hn; omega
+          · intro t1 ht1
+            have := hx.times t1 ht1
+            simp only [setTm_tm_same]
+            omega
+        · rw [h4]; simpa using hx.times
+      · exact other _ _ j e (by simp [setTm_tm_other _ _ _ _ e]) rfl rfl rfl rfl
+          (snoc_inert tr _ j (Or.inl ⟨_, _, _, rfl⟩))
+    next hp =>
+      have hp0 : (s.tm id).period = 0 := by simp at hp; exact hp
+      simp only [List.append_nil]
+      intro j
+      by_cases e : j = id
+      · subst e
+        constructor
+        · intro _; simp [hl]
+        · simpa using hx.cancelComplete
+        · simpa using hx.createdLive
+        · simp [hl]
+        · simpa using hx.once
+        · intro _ _ _; right; right; right; simpa using ⟨hp0, hcnt⟩
+        · simp
+        · intro hor; simp [ha, hnq] at hor
+        · simpa using hx.times
+      · exact other _ _ j e (by simp [setTm_tm_other _ _ _ _ e]) rfl rfl rfl rfl (hist_same tr j)
+
+/-! #### remaining primitives -/
+theorem hist_setCur_same {s : State} {tr : List Event} (h : Hist s tr) {id : Nat} (hc : s.curId = some id) (acts : List Act) :
+    Hist (s.setCur (some (id, acts))) tr := by
+  intro j
+  exact histAt_frame (s := s) (tr := tr) (by rfl) (by simp) (by simp [hc]) (by simp) (by simp) (hist_same tr j) (h j)
+
+theorem hist_tick {s : State} {tr : List Event} (h : Hist s tr) (d : Nat) : Hist (s.tick d) tr := by
+  intro j
+  exact histAt_frame (s := s) (tr := tr) (by rfl) (by simp) (by simp) (by simp) (by simp) (hist_same tr j) (h j)
+
+theorem hist_halt {s : State} {tr : List Event} (h : Hist s tr) : Hist s.halt tr := by
+  intro j
+  exact histAt_frame (s := s) (tr := tr) (by rfl) (by simp) (by simp) (by simp) (by simp) (hist_same tr j) (h j)
+
+theorem hist_setScript {s : State} {tr : List Event} (h : Hist s tr) (k : Nat) (acts : List Act) :
+    Hist (s.setScript k acts) tr := by
+  intro j
+  exact histAt_frame (s := s) (tr := tr) (by rfl) (by simp) (by simp) (by simp) (by simp) (hist_same tr j) (h j)
+
+theorem wf_setCur_same {s : State} (h : WF s) {id : Nat} (hc : s.curId = some id) (acts : List Act) :
+    WF (s.setCur (some (id, acts))) := by
+  refine wf_setCur h _ ?_
+  intro j hj; simp at hj; subst hj; exact cur_facts h hc
+
+theorem hist_cbStep {s : State} {tr : List Event} (hw : WF s) (h : Hist s tr) :
+    Hist (cbStep s).1 (tr ++ (cbStep s).2) := by
+  unfold cbStep
+  split
+  · simpa using h
+  next id hcur => exact hist_finish hw h (curId_of_cur hcur)
+  next id a rest hcur =>
+    have hc := curId_of_cur hcur
+    have w1 := wf_setCur_same hw hc rest
+    have h1 := hist_setCur_same h hc rest
+    cases a with
+    | cancelSelf => exact hist_cancelTm w1 h1 id
+    | cancel x => exact hist_cancelTm w1 h1 x
+    | cancelNewest => exact hist_cancelTm w1 h1 _
+    | after d k arg => exact hist_create w1 h1 d false k [arg]
+    | add d k arg => exact hist_create w1 h1 d true k [arg]
+    | panic =>
+      intro j
+      exact histAt_frame (s := s) (tr := tr) (s' := s.setCur (some (id, []))) (by rfl) (by simp) (by simp [hc])
+        (by simp) (by simp) (snoc_inert tr _ j (Or.inr ⟨_, rfl⟩)) (h j)
+
+theorem hist_step {s : State} {tr : List Event} (hw : WF s) (h : Hist s tr) (op : Op) :
+    Hist (step s op).1 (tr ++ (step s op).2) := by
+  cases op with
+  | after d k a => simp only [step]; split; simpa using h; exact hist_create hw h d false k a
+  | add d k a => simp only [step]; split; simpa using h; exact hist_create hw h d true k a
+  | cancel id => simp only [step]; split; simpa using h; exact hist_cancelTm hw h id
+  | expire id => exact hist_expire hw h id
+  | doNext i => exact hist_doNext hw h i
+  | cbStep => exact hist_cbStep hw h
+  | advance d => simpa [step] using hist_tick h d
+  | stop => simpa [step] using hist_halt h
+  | defScript k acts => simpa [step] using hist_setScript h k acts
+
+/-! ### where callbacks come from, and the trace properties -/
+
+theorem ite_single_cases {α : Type} (c : Prop) [Decidable c] (e : α) :
+    (if c then [e] else []) = [] ∨ ∃ e', (if c then [e] else []) = [e'] := by
+  by_cases h : c <;> simp [h]
+
+theorem cb_not_mem_ite_cancel (c : Prop) [Decidable c] (id t x n : Nat) (a : List Nat) :
+    Event.cb id t a ∉ (if c then [Event.cancel x n] else []) := by
+  by_cases h : c <;> simp [h]
+
+theorem step_events_le_one (s : State) (op : Op) : (step s op).2 = [] ∨ ∃ e, (step s op).2 = [e] := by
+  cases op with
+  | after d k a => simp only [step]; split <;> simp [create]
+  | add d k a => simp only [step]; split <;> simp [create]
+  | cancel id => simp only [step]; split; simp; simp only [cancelTm]; exact ite_single_cases _ _
+  | expire id => simp only [step, expire]; split <;> (try split) <;> (try split) <;> simp
+  | doNext i => simp only [step, doNext]; split <;> (try split) <;> (try split) <;> simp
+  | cbStep =>
+    simp only [step, cbStep]
+    split
+    · simp
+    · simp only [finish]; split <;> (try split) <;> simp
+    next id a rest _ => cases a <;> simp [create, cancelTm] <;> exact ite_single_cases _ _
+  | advance d => simp [step]
+  | stop => simp [step]
+  | defScript k acts => simp [step]
+
+/-- a callback is entered only by `doNext`, for the element taken from the queue, if it is not cancelled -/
+theorem cb_of_step {s : State} {op : Op} {id t : Nat} {a : List Nat} (h : Event.cb id t a ∈ (step s op).2) :
+    ∃ i, op = .doNext i ∧ s.cur = none ∧ s.queue[i]? = some id ∧ (s.tm id).cancelled = false ∧
+      t = s.now ∧ a = (s.tm id).args := by
+  cases op with
+  | after d k a => simp only [step] at h; split at h <;> simp [create] at h
+  | add d k a => simp only [step] at h; split at h <;> simp [create] at h
+  | cancel x => simp only [step] at h; split at h; simp at h; simp only [cancelTm] at h; exact absurd h (cb_not_mem_ite_cancel _ _ _ _ _ _)
+  | expire x => simp only [step, expire] at h; split at h <;> (try split at h) <;> (try split at h) <;> simp at h
+  | doNext i =>
+    simp only [step, doNext] at h
+    split at h
+    · simp at h
+    next hcn =>
+      split at h
+      · simp at h
+      next x hx =>
+        split at h
+        · simp at h
+        next hcc =>
+          simp at h
+          obtain ⟨h1, h2, h3⟩ := h
+          subst h1
+          refine ⟨i, rfl, ?_, hx, by simpa using hcc, h2, h3⟩
+          cases hc : s.cur with
+          | none => rfl
+          | some v => simp [hc] at hcn
+  | cbStep =>
+    simp only [step, cbStep] at h
+    split at h
+    · simp at h
+    · simp only [finish] at h; split at h <;> (try split at h) <;> simp at h
+    next x a rest _ => cases a <;> simp [create, cancelTm] at h <;> exact absurd h (cb_not_mem_ite_cancel _ _ _ _ _ _)
+  | advance d => simp [step] at h
+  | stop => simp [step] at h
+  | defScript k acts => simp [step] at h
+
+def NoCbAfterCancel (tr : List Event) : Prop :=
+  ∀ pre post id t, tr = pre ++ Event.cancel id t :: post → ∀ t' a, Event.cb id t' a ∉ post
+
+def CbJustified (tr : List Event) : Prop :=
+  ∀ pre post id t a, tr = pre ++ Event.cb id t a :: post →
+    ∃ t0 dl p, createdOf pre id = some (t0, dl, p, a) ∧ (lastCb pre id = none → t0 + dl ≤ t) ∧
+      (∀ t1, lastCb pre id = some t1 → t1 + p ≤ t)
+
+theorem cancelledIn_of_split {tr pre post : List Event} {id t : Nat} (h : tr = pre ++ Event.cancel id t :: post) :
+    cancelledIn tr id = true := by
+  subst h; simp [cancelledIn, Event.isCancelOf]
+
+theorem noCbAfterCancel_snoc {tr : List Event} {e : Event} (h : NoCbAfterCancel tr)
+    (he : ∀ id t a, e = Event.cb id t a → cancelledIn tr id = false) : NoCbAfterCancel (tr ++ [e]) := by
+  intro pre post id t heq t' a hmem
+  rcases snoc_split pre tr e _ post heq with ⟨_, _, hp⟩ | ⟨post', hp, htr⟩
+  · subst hp; simp at hmem
+  · subst hp
+    simp only [List.mem_append, List.mem_singleton] at hmem
+    rcases hmem with hmem | hmem
+    · exact h pre post' id t htr t' a hmem
+    · have := he id t' a hmem.symm
+      rw [cancelledIn_of_split htr] at this; cases this
+
+theorem cbJustified_snoc {tr : List Event} {e : Event} (h : CbJustified tr)
+    (he : ∀ id t a, e = Event.cb id t a →
+      ∃ t0 dl p, createdOf tr id = some (t0, dl, p, a) ∧ (lastCb tr id = none → t0 + dl ≤ t) ∧
+        (∀ t1, lastCb tr id = some t1 → t1 + p ≤ t)) : CbJustified (tr ++ [e]) := by
+  intro pre post id t a heq
+  rcases snoc_split pre tr e _ post heq with ⟨h1, h2, _⟩ | ⟨post', _, htr⟩
+  · subst h1; exact he id t a h2
+  · exact h pre post' id t a htr
+
+structure Good (tr : List Event) : Prop where
+  noCbAfterCancel : NoCbAfterCancel tr
+  cbJustified : CbJustified tr
+
+theorem good_nil : Good [] := by
+  constructor
+  · intro pre post id t h; simp at h
+  · intro pre post id t a h; simp at h
+
+theorem good_step {s : State} {tr : List Event} (hw : WF s) (h : Hist s tr) (hg : Good tr) (op : Op) :
+    Good (tr ++ (step s op).2) := by
+  rcases step_events_le_one s op with h0 | ⟨e, h1⟩
+  · rw [h0]; simpa using hg
+  · rw [h1]
+    have facts : ∀ id t a, e = Event.cb id t a →
+        ∃ i : Nat, s.queue[i]? = some id ∧ (s.tm id).cancelled = false ∧ t = s.now ∧ a = (s.tm id).args := by
+      intro id t a he
+      have hm : Event.cb id t a ∈ (step s op).2 := by rw [h1, he]; simp
+      obtain ⟨i, _, _, hq, hc, ht, ha⟩ := cb_of_step hm
+      exact ⟨i, hq, hc, ht, ha⟩
+    constructor
+    · refine noCbAfterCancel_snoc hg.noCbAfterCancel ?_
+      intro id t a he
+      obtain ⟨i, hq, hc, _, _⟩ := facts id t a he
+      have hmem : id ∈ s.queue := List.mem_of_getElem? hq
+      cases hci : cancelledIn tr id with
+      | false => rfl
+      | true =>
+        obtain ⟨hl, hm⟩ := (h id).cancelSound hci
+        rcases hw.gone id hl hm with hcc | ⟨_, hnq, _⟩
+        · simp [hc] at hcc
+        · exact absurd hmem hnq
+    · refine cbJustified_snoc hg.cbJustified ?_
+      intro id t a he
+      obtain ⟨i, hq, hc, ht, ha⟩ := facts id t a he
+      have hmem : id ∈ s.queue := List.mem_of_getElem? hq
+      obtain ⟨t0, dl, hco⟩ := (h id).createdLive (live_of_queued hw hmem)
+      have htm := (h id).timing (Or.inr hmem) t0 dl _ _ hco
+      have hexp := (hw.queueOk id hmem).2
+      refine ⟨t0, dl, (s.tm id).period, by rw [hco, ha], ?_, ?_⟩
+      · intro hn; have := htm.1 hn; omega
+      · intro t1 h1'; have := htm.2 t1 h1'; omega
+
+/-! ### every history from the initial state -/
+
+structure Inv (s : State) (tr : List Event) : Prop where
+  wf : WF s
+  hist : Hist s tr
+  good : Good tr
+
+theorem inv_init : Inv init [] := ⟨wf_init, hist_init, good_nil⟩
+
+theorem inv_step {s : State} {tr : List Event} (h : Inv s tr) (op : Op) :
+    Inv (step s op).1 (tr ++ (step s op).2) :=
+  ⟨wf_step h.wf op, hist_step h.wf h.hist op, good_step h.wf h.hist h.good op⟩
+
+theorem inv_runFrom {s : State} {tr : List Event} (h : Inv s tr) (ops : List Op) :
+    Inv (runFrom s tr ops).1 (runFrom s tr ops).2 := by
+  induction ops generalizing s tr with
+  | nil => exact h
+  | cons op ops ih => exact ih (inv_step h op)
+
+theorem inv_run (ops : List Op) : Inv (run ops).1 (run ops).2 := inv_runFrom inv_init ops
 
 end Cell2v.Timer
